@@ -10,6 +10,8 @@ structure St where
   locked : List Nat
   /-- lists saved by the flow derivation in progress (`t-dagbegin`) -/
   saved : List (Nat × List Nat) := []
+  /-- pulls in progress (`t-pullbegin`): the graph at save time and the saved channels, innermost first -/
+  pulls : List (G × List Nat) := []
 
 def St.me (s : St) : May := fun c => !s.locked.contains c
 
@@ -45,7 +47,7 @@ def compact (s : St) : St :=
 
 def init : St :=
   { g := { kind := fun _ => .dataIn, owner := fun _ => 0, valid := fun _ _ => true, conns := fun _ => [] },
-    dom := [], locked := [], saved := [] }
+    dom := [], locked := [], saved := [], pulls := [] }
 
 def step (s : St) (ws : List String) : St × List String :=
   match ws with
@@ -167,6 +169,17 @@ def step (s : St) (ws : List String) : St × List String :=
       let (g, ok) := moveChan s.g o n
       ({ s with g }, if ok then [] else ["bad-obs"])
     | _, _ => (s, ["bad-op"])
+  | "t-pullbegin" :: keys =>
+    match nats keys with
+    | some keys => ({ s with pulls := (s.g, keys) :: s.pulls }, [])
+    | none => (s, ["bad-op"])
+  | ["t-pullend"] =>
+    match s.pulls with
+    | (g0, keys) :: rest =>
+      -- `restoreSaved_framed`: the assignment gives `g0` back iff nothing outside the saved channels was written
+      if framed g0 s.g keys s.dom then ({ s with g := restoreSaved s.g (savedKeys g0 keys), pulls := rest }, [])
+      else ({ s with g := restoreSaved s.g (savedKeys g0 keys), pulls := rest }, ["bad-obs"])
+    | [] => (s, ["bad-op"])
   | "t-dagbegin" :: cut =>
     match nats cut with
     | some cut => ({ s with saved := savedOf s.g cut }, [])
